@@ -504,7 +504,10 @@ func (x *cmpCtx) compare(cl call, items []item) []disc {
 			if d, _ := geomDiff(want, scaleSegs(it.segs, x.unit), tol); d != "" {
 				kind := x.backend + ":geometry:stroke-outline"
 				if 0 < len(s.Dashes) {
-					if d2, _ := geomDiff(refOutline(cl, false), scaleSegs(it.segs, x.unit), tol); d2 == "" {
+					// (classification only; Dash with the raw pattern may hit Path.Dash's own panics: C05/C09)
+					var alt []hc.Seg
+					hc.Try(func() { alt = refOutline(cl, false) })
+					if d2, _ := geomDiff(alt, scaleSegs(it.segs, x.unit), tol); alt != nil && d2 == "" {
 						kind = x.backend + ":outline:dashes-not-scaled-by-stroke-width"
 						d = "the explicit outline is dashed with the raw pattern; the reference (and the native route) scale it by the stroke width: " + d
 					}
@@ -648,6 +651,48 @@ func checkPDFPatterns(c *hc.Ctx, rp *replay, x *cmpCtx, calls []call, grads []ca
 		c.Count("pdf:pattern-checked")
 		if !okc {
 			report(c, disc{"pdf:gradient:coords", fmt.Sprintf("pattern %s Coords %v, expected %v mm in points", p.Name, p.Coords, want)}, calls, grads, len(calls)-1, nil)
+		}
+		// colour function (PDF 32000-1 7.10.3/7.10.4): one exponential function per stop interval, a constant
+		// piece before a first offset > 0 and after a last offset < 1, k-1 bounds for k functions
+		var stops canvas.Stops
+		switch t := g.(type) {
+		case *canvas.LinearGradient:
+			stops = t.Stops
+		case *canvas.RadialGradient:
+			stops = t.Stops
+		}
+		if len(stops) < 2 {
+			continue
+		}
+		var wb []float64
+		nf := len(stops) - 1
+		if 1e-9 < stops[0].Offset {
+			nf++
+			wb = append(wb, stops[0].Offset)
+		}
+		for i := 1; i+1 < len(stops); i++ {
+			wb = append(wb, stops[i].Offset)
+		}
+		if stops[len(stops)-1].Offset < 1-1e-9 {
+			nf++
+			wb = append(wb, stops[len(stops)-1].Offset)
+		}
+		c0, _ := unpremul(stops[0].Color)
+		c1, _ := unpremul(stops[len(stops)-1].Color)
+		okf := p.NFunctions == nf && len(p.C0) == 3 && len(p.C1) == 3
+		if nf > 1 {
+			okf = okf && len(p.Bounds) == len(wb) && len(p.Encode) == 2*nf
+			for i := 0; okf && i < len(wb); i++ {
+				okf = closeF(p.Bounds[i], wb[i], 1e-9)
+			}
+		}
+		for i := 0; okf && i < 3; i++ {
+			okf = closeF(p.C0[i], c0[i], 1e-9) && closeF(p.C1[i], c1[i], 1e-9)
+		}
+		c.Count(fmt.Sprintf("pdf:pattern-functions:%d", nf))
+		if !okf {
+			report(c, disc{"pdf:gradient:function", fmt.Sprintf("pattern %s: %d functions bounds %v C0 %v C1 %v; expected %d functions bounds %v C0 %v C1 %v (stops %v)",
+				p.Name, p.NFunctions, p.Bounds, p.C0, p.C1, nf, wb, c0, c1, stops)}, calls, grads, len(calls)-1, nil)
 		}
 	}
 }
